@@ -683,8 +683,21 @@ def headerOk (d : Doc) : Bool :=
     let w := d.grid.width + 1
     n1 ≤ w && n2 ≤ w && d.braces.all fun b => b.first ≤ b.last && b.last < d.grid.width
 
-/-- The first clause of the property that fails, or the matching. -/
-def check (c : Circ) (d : Doc) : Except Fail MState :=
+/-- Pairs (row of a control / condition mark, row of an identity mark) of one stage of the circuit:
+the identity gate's drawing IS the bare wire, so a control line of the same stage may end on it.
+Computed from the circuit alone (independent of any matching of the grid). -/
+def idleLinks (nq : Nat) (ops : List Op) : List (Nat × Nat) :=
+  ops.flatMap fun op => (opItems nq op).flatMap fun it =>
+    match it with
+    | .stage marks _ _ =>
+      (marks.filter fun m => m.kind = .idle).flatMap fun mi =>
+        (marks.filter fun m => m.kind ≠ .idle).map fun m => (m.wire, mi.wire)
+    | _ => []
+
+/-- The first clause of the property that fails, or the matching. `hint col row` may name the
+operation that drew the symbol at a cell (the driver passes the model's ghost provenance); it is used
+ONLY to attribute a connector / span failure to an operation (class tag), never for the verdict. -/
+def check (c : Circ) (d : Doc) (hint : Nat → Nat → Option Nat := fun _ _ => none) : Except Fail MState :=
   let g := d.grid
   if !rectangular d.rows then .error ⟨"rectangular", none, "rows of different length"⟩
   else if !rowsOk c d then .error ⟨"rows", none, "not one labelled row per wire, quantum rows first"⟩
@@ -692,6 +705,9 @@ def check (c : Circ) (d : Doc) : Except Fail MState :=
   else
     -- the matching is run leniently first, only to attribute a structural failure to an operation
     let owner (col row : Nat) : Option Nat :=
+      match hint col row with
+      | some k => some k
+      | none =>
       let ms := matchLenient c.nq g c.ops 0 ⟨List.replicate (c.nq + c.nc) 0, 0, [], d.braces, [], 0, [], [], []⟩
       match (ms.cells.find? fun (c', w, _, _) => c' = col && w = row).map fun (_, _, k, _) => k with
       | some k => some k
@@ -706,9 +722,9 @@ def check (c : Circ) (d : Doc) : Except Fail MState :=
     let bad (p : Nat → List Sym → Nat → Sym → Bool) : Option (Nat × Nat) :=
       (List.range g.width).findSome? fun col =>
         ((g.col col).zipIdx.find? fun (s, r) => !(p col (g.col col) r s)).map fun (_, r) => (col, r)
-    -- a line may also end on the bare wire that is the drawing of an identity gate of the circuit
-    let idle := (matchLenient c.nq g c.ops 0 ⟨List.replicate (c.nq + c.nc) 0, 0, [], d.braces, [], 0, [], [], []⟩).idle
-    match bad fun ci col r s => linesOkIdle ((idle.filter (·.1 = ci)).map (·.2)) col r s && extentOk c.nq col r s with
+    -- a line may also end on the bare wire that is the drawing of an identity gate of the same stage
+    let idle := idleLinks c.nq c.ops
+    match bad fun _ col r s => linesOkIdle ((idle.filter (·.1 = r)).map (·.2)) col r s && extentOk c.nq col r s with
     | some (col, r) => .error ⟨"connector", owner col r,
         s!"column {col} row {r}: {repr (g.cell r col)} leaves the grid or ends on no partner symbol"⟩
     | none =>
